@@ -5,7 +5,7 @@
 From Coq Require Import List QArith ZArith NArith Bool Arith.
 From QmcV Require Import Model.Prog Model.Sse Model.Nav Model.Ham Model.Diagonal Model.Cluster Model.ClusterValid
      Model.Convert Proofs.ProgLemmas Proofs.DiagonalProofs Proofs.ConvertProofs Proofs.SseWeight
-     Proofs.ClusterProofs Proofs.ClusterFlipProofs Proofs.ThermalProofs Proofs.WorldLine Proofs.Expect Proofs.SweepStationary.
+     Proofs.ClusterProofs Proofs.ClusterFlipProofs Proofs.ThermalProofs Proofs.WorldLine Proofs.Expect Proofs.SweepStationary Proofs.GroupKernel Proofs.TimestepStationary Model.Steps.
 Import ListNotations.
 Open Scope Q_scope.
 
@@ -181,3 +181,67 @@ Example C01_ex_stationary_space :
                              * mass (cfg_eqb y) (denote (update_cfg (met_update ex_ham (1 # 2)) x))) sp))
         (sse_weight ex_ham (1 # 2) (snd y))) sp = true.
 Proof. vm_compute. repeat split. Qed.
+
+(* ---- the whole default pipeline: diagonal update, then cluster update (one fair bit per cluster of the
+   decomposition), then free-spin refresh (one fair bit per variable without operators), as ONE program on
+   complete configurations, leaves the SSE weight stationary — for every Hamiltonian table whose non-edge
+   operators are flip-symmetric (h = 0), on every configuration space that is closed under the three kinds
+   of moves and on which the decomposition's labelling passes the validators of C09 ---- *)
+Theorem C01_timestep_stationary : forall H beta L nv xs,
+  0 < beta -> (0 < h_nbonds H)%nat -> tspace_ok H L nv xs ->
+  forall f : cfg -> Q,
+    Qsum (map (fun x => sse_weight H beta (snd x) * expect (pipeline_cfg (update_cfg (met_update H beta)) x) f) xs)
+    == Qsum (map (fun x => sse_weight H beta (snd x) * f x) xs).
+Proof. exact metropolis_timestep_stationary. Qed.
+Print Assumptions C01_timestep_stationary.
+
+(* the pipeline IS the model of QmcIsingGraph::timestep (the term replayed against the implementation on raw
+   RNG words) when there is no longitudinal field and the decomposition succeeds on what the sweep produces *)
+Theorem C01_timestep_is_pipeline : forall g beta st sl (f : cfg -> Q),
+  has_long g = false -> wf st sl = true ->
+  (forall p r, In (p, r) (denote (met_update (ising_ham g) beta (length sl) st sl)) ->
+     Nat.eqb (count_ops (fst (fst r))) 0 = false -> decompose (fst (fst r)) <> None) ->
+  expect (ising_timestep g false beta (length sl) st sl) (obs_of f)
+  == expect (pipeline_cfg (update_cfg (met_update (ising_ham g) beta)) (st, sl)) f.
+Proof. exact ising_timestep_is_pipeline. Qed.
+Print Assumptions C01_timestep_is_pipeline.
+
+(* the two later stages on their own *)
+Theorem C01_cluster_update_stationary : forall H beta xs,
+  NoDup xs -> cluster_ready H xs -> wstat xs (fun c => sse_weight H beta (snd c)) cluster_cfg.
+Proof. exact cluster_kernel_stationary. Qed.
+Print Assumptions C01_cluster_update_stationary.
+
+Theorem C01_refresh_stationary : forall H beta xs k v,
+  NoDup xs ->
+  (forall st sl u, In (st, sl) xs -> var_has_ops sl u = false -> In (toggle_var st u, sl) xs) ->
+  wstat xs (fun c => sse_weight H beta (snd c)) (refresh_sweep v k).
+Proof. intros H beta xs k v Hnd Hf. exact (refresh_sweep_stationary H beta xs Hnd Hf k v). Qed.
+Print Assumptions C01_refresh_stationary.
+
+Theorem C01_refresh_is_sweep : forall c (f : cfg -> Q),
+  expect (refresh_cfg c) f == expect (refresh_sweep 0 (length (fst c)) c) f.
+Proof. exact refresh_cfg_is_sweep. Qed.
+Print Assumptions C01_refresh_is_sweep.
+
+(* the hypotheses are decidable on a concrete space ... *)
+Theorem C01_space_check_sound : forall H L nv xs,
+  space_ok H L xs ->
+  (forall o, op_legal H o = true -> if is_edge o then edge_free H o else flip_sym H o) ->
+  cluster_check xs = true -> free_check nv xs = true -> tspace_ok H L nv xs.
+Proof. exact tspace_check_sound. Qed.
+Print Assumptions C01_space_check_sound.
+
+(* ... and hold for the complete space of the example (two spins, antiferromagnetic bond + constant term,
+   cutoff 2, all 30 configurations): non-vacuity of C01_timestep_stationary, with the flow equation of the
+   whole pipeline evaluated at every configuration *)
+Example C01_ex_timestep_space : tspace_ok ex_ham 2 2 (canon ex_ham (all_substates 2) 2).
+Proof. exact ex_space_ok. Qed.
+
+Example C01_ex_timestep_flow :
+  let sp := canon ex_ham (all_substates 2) 2 in
+  forallb (fun y => Qeq_bool
+        (Qsum (map (fun x => sse_weight ex_ham (1 # 2) (snd x)
+                             * mass (cfg_eqb y) (denote (pipeline_cfg (update_cfg (met_update ex_ham (1 # 2))) x))) sp))
+        (sse_weight ex_ham (1 # 2) (snd y))) sp = true.
+Proof. vm_compute. reflexivity. Qed.
